@@ -1125,6 +1125,10 @@ export class ProcGenWrapper {
           nodeDataProxy.replaceDataOnPath(modelLvaluePath, value)
           nodeDataProxy.applyDataUpdates(false)
         })
+      } else if (modelLvaluePath === null && elem.getModelBindingListeners()[name]) {
+        // the expression stopped being assignable (e.g. the other branch of a conditional is
+        // taken now): the listener registered for the previous path must not stay active
+        elem.setModelBindingListener(name, () => {})
       }
     }
     this.tryCallPropertyChangeListener(elem, name, v)
